@@ -24,7 +24,7 @@ def prove_lemma(v, l):
         try:
             b = SymBuilder(ctx, v.world)
             call = l.builder(b)
-            fr = v.spec_frame(dummy, ctx, call.get("env", {}))
+            fr = v.spec_frame(dummy, ctx, {k: b.conv(x) for k, x in call.get("env", {}).items()})
             for a in l.assumes:
                 node, _ = parse_clause(a)
                 x = v.eval_spec(ctx, fr, node)
